@@ -48,7 +48,7 @@ ASSUMPTIONS = [
     "the sat-mode precondition of get-value is enforced by the reference solver, not by the Coq spec; generated histories query values only after a sat answer",
     "Int verdicts are relative to the range -4..4 for free symbols",
 ]
-RULE = ("histories: (a) the Coq refutation witness and the witnesses of the clauses repaired by fixes C17 a-d (regression), (b) user-legal histories over a 13-call alphabet: all up to length 2 + a sample of length 3 (thorough: all up to length 4), "
+RULE = ("histories: (a) the witnesses of the clauses repaired by fixes C17 a-e (regression), (b) user-legal histories over a 13-call alphabet: all up to length 2 + a sample of length 3 (thorough: all up to length 4), "
         "(c) random histories with one-level push/pop, no reset, value queries last, (d) random histories stressing one repaired clause each; a quarter of (c),(d) draws from a 40-symbol pool of mixed sorts with formulas of 7..33 distinct free symbols (sizes 7,8,9,15,16,17,31,32,33 explicitly), "
         "(d'') names: a custom sort and a symbol with the SAME name (both arrival orders, one assertion or several, across push / pop(n) / reset, first use popped before the second arrives), a symbol named like its own sort, sorts named like theory functions / auxiliary let names / needing quotes, symbols named Int, 0x, .def_k; 15% of (c),(d) add such names to their pool; paramsort: two instances of a sort symbol with arguments; sortvalue: value queries on custom-sort symbols, "
         "(d') poplevels: symbols declared at different levels, one pop(n) with n in 2..4, reuse of symbols of the lowest/middle/highest popped level in small and large formulas, with/without a small formula first, optionally after push / reset_assertions; widemodel: 15..33 symbols at one level then get_model / get_value of wide terms, "
@@ -601,6 +601,8 @@ def random_history(rnd, cls, wide=False, names=False):
             call = (k, rnd.choice(ns))
         elif k == "get_value":
             live = sorted(ideal.live_syms())
+            if rnd.random() < 0.3:      # also symbols that no live assertion mentions
+                live = sorted(set(live) | set(n for n in pool if not is_usort(SYM_SORT[n])))
             if not live:
                 continue
             sub = rnd.sample(live, min(len(live), rnd.choice([1, 1, 2])))
@@ -609,8 +611,6 @@ def random_history(rnd, cls, wide=False, names=False):
             if wide and rnd.random() < 0.5:
                 t = gen_wide(rnd, rnd.sample(live, min(len(live), pick_size(rnd))))
             call = (k, t)
-            if not ideal.queryable(t):
-                continue
         else:
             call = (k,)
         if not ideal.legal(call):
@@ -648,7 +648,8 @@ def random_history(rnd, cls, wide=False, names=False):
                         ideal.step(call)
                         h.append(call)
             if cls == "valuefree":
-                free = [n for n, _ in POOL if n not in ideal.declared()]
+                # (a custom sort has no default value: get_value raises PysmtTypeError before sending)
+                free = [n for n, so in POOL if n not in ideal.declared() and not is_usort(so)]
                 if free:
                     h.append(("get_value", ("var", rnd.choice(free))))
                     return h
@@ -943,15 +944,15 @@ def enumerated_histories(maxlen):
 
 
 X, Y = ("var", "b0"), ("var", "b1")
-# histories that refuted clauses before the fixes C17 a-d (kept as regression corpus: they must be
-# clean now), followed by the witness of the clause that is still refuted
+# histories that refuted clauses before the fixes C17 a-e (kept as regression corpus: they must
+# be clean now)
 WITNESSES = [
     ("sync_witness", [("add", X), ("solve",), ("get_value", X), ("solve",)]),
     ("pop2_witness", [("push", 1), ("add", X), ("push", 1), ("pop", 2), ("add", X)]),
     ("push2_witness", [("push", 2), ("pop", 1), ("pop", 1), ("add", X)]),
     ("redeclare_witness", [("push", 1), ("push", 1), ("pop", 2), ("add", X), ("push", 2), ("pop", 1), ("pop", 1), ("add", X)]),
     ("reset_witness", [("add", X), ("reset",), ("add", X)]),
-    ("value_witness", [("add", X), ("solve",), ("get_value", Y)]),
+    ("value_witness", [("add", X), ("solve",), ("get_value", Y), ("get_value", ("and", X, Y))]),
     ("model_witness", [("add", X), ("push", 1), ("add", Y), ("solve",), ("get_model",)]),
     ("model_witness_pending", [("add", X), ("is_sat", Y), ("get_model",)]),
 ]
@@ -1795,10 +1796,6 @@ def run(tier):
                          "implementation_commands": [e["cmd"] for e in res[i]["log"]], "raised": res[i]["exc"]})
         what += corr_bad[:2]
         chk.violation({"kind": "obligation", "theorem_or_correspondence": what}, found_input=False)
-    # the witness of the remaining _refuted theorem must reproduce on the implementation
-    for k, (name, h) in enumerate(WITNESSES):
-        if name == "value_witness" and k in res and not oracle(h, res[k]):
-            chk.note("NOTE: Coq witness %s does not fail on the implementation any more (fixed?)" % name)
     return chk.finish(TRUSTED, ASSUMPTIONS, RULE)
 
 
